@@ -208,6 +208,17 @@ def encColumn (cols : List (String × Nat)) (dflt : Nat) (name : String) : Nat :
   | some e => e.2
   | none => dflt
 
+/-! ### Differences arrays as runs (ISO 32000-1 9.6.6.1: "code1 name1,1 name1,2 … code2 name2,1 …") -/
+
+/-- Consecutive numbering of the names of one run. -/
+def numberFrom : Int → List (Option Name) → List (Int × Option Name)
+  | _, [] => []
+  | c, n :: ns => (c, n) :: numberFrom (c + 1) ns
+
+/-- The Differences array of a list of runs `(first code, names)`. -/
+def diffOfRuns (runs : List (Int × List (Option Name))) : List DiffTok :=
+  runs.flatMap (fun r => DiffTok.num r.1 :: r.2.map DiffTok.name)
+
 structure Tables where
   gl : GlyphList
   rows : List EncRow
